@@ -397,8 +397,57 @@ pub fn render(case: &Value) -> Option<Vec<String>> {
     })
 }
 
+/// MC_RetSpans: the span of a single return value / of a parameter in every form, from the text alone
+fn run_ret_span(case: &Value) -> Outcome {
+    use slicec::grammar::*;
+    let gap = match case["gap"].as_str().unwrap_or("sp") {
+        "sp2" => "  ",
+        "nl" => "\n      ",
+        "bc" => " /* c */ ",
+        _ => " ",
+    };
+    let toks = strs(&case["tokens"]);
+    let is_ret = case["what"] == "return";
+    // "p" ":" are written together ('p:'), the other tokens are separated by the gap
+    let mut element = String::new();
+    for (i, t) in toks.iter().enumerate() {
+        if i > 0 && t != ":" {
+            element.push_str(gap);
+        }
+        element.push_str(t);
+    }
+    let head = if is_ret { format!("module M\nstruct S {{}}\ninterface I {{\n  op() ->{gap}") } else { format!("module M\nstruct S {{}}\ninterface I {{\n  op({gap}") };
+    let text = format!("{head}{element}{}\n}}\n", if is_ret { "" } else { ")" });
+    let pos_of = |offset: usize| -> (usize, usize) {
+        let before: Vec<char> = text.chars().take(offset).collect();
+        let row = before.iter().filter(|c| **c == '\n').count() + 1;
+        let col = before.iter().rev().take_while(|c| **c != '\n').count() + 1;
+        (row, col)
+    };
+    let start = head.chars().count();
+    let want = (pos_of(start), pos_of(start + element.chars().count()));
+    let rendered = json!({"files": [text]});
+    let key = hash_str(&text);
+    let state = slicec::compile_from_strings(&[&text], None);
+    let got = state.ast.find_element::<Operation>("M::I::op").ok().and_then(|op| {
+        let m = if is_ret { op.return_members().first().map(|r| r.span().clone()) } else { op.parameters().first().map(|p| p.span().clone()) };
+        m.map(|s| ((s.start.row, s.start.col), (s.end.row, s.end.col)))
+    });
+    let fail = if state.diagnostics.has_errors() {
+        Some(json!({"kind": "harness", "what": "the template is rejected"}))
+    } else if got != Some(want) {
+        Some(mismatch("span of the return value / parameter (first token of its declaration proper .. end of its type)", json!(want), json!(got)))
+    } else {
+        None
+    };
+    Outcome { fail, nontrivial: toks.len() > 1, key, rendered }
+}
+
 impl Family for Rules {
     fn run(&mut self, case: &Value) -> Outcome {
+        if case["retspan"] == true {
+            return run_ret_span(case);
+        }
         let texts = render(case).unwrap_or_default();
         let refs: Vec<&str> = texts.iter().map(|s| s.as_str()).collect();
         let rendered = json!({"files": texts});
